@@ -371,8 +371,12 @@ def mse_loss_backward(grad: np.ndarray, y_pred: np.ndarray, y_true: np.ndarray) 
     
     
 def nll_loss_forward(y_pred: np.ndarray, y_true: np.ndarray) -> np.ndarray:
+    if y_pred.ndim != 2:
+        raise ValueError(f"Expected scores of shape (N, C), but got {y_pred.shape}")
     if y_true.ndim != 1 or len(y_true) != len(y_pred): # anything else would broadcast against range(N) silently
         raise ValueError(f"Expected one class index per sample, a target of shape ({len(y_pred)},), but got {y_true.shape}")
+    if y_true.size and (y_true.min() < 0 or y_true.max() >= y_pred.shape[1]): # a negative index would wrap around
+        raise IndexError(f"Target {y_true.min() if y_true.min() < 0 else y_true.max()} is out of bounds for {y_pred.shape[1]} classes")
     loss = -y_pred[range(len(y_pred)), y_true] # one value per sample: shape (N,), as in PyTorch
     return loss
 
